@@ -138,3 +138,20 @@ Fixpoint count_transitions_loop (fuel:nat) (s:str) (pos:N) : nat :=
            if p =? npos then 0%nat else S (count_transitions_loop f s (wadd p 2))
   end.
 Definition count_transitions (s:str) : nat := count_transitions_loop (S (length s)) s 0.
+
+(* parse_stt<t>: the t-th transition line of a whole description. A line counts as a transition line iff it contains
+   "->" and no "[*]" in front of its end (initial and terminate lines are skipped); fuel = bound for the do-while *)
+Definition c_initstar : str := [c_lbr; c_star; c_rbr].
+Fixpoint parse_stt_loop (fuel:nat) (stt:str) (prev_pos:N) (cpt t:nat) : transition :=
+  match fuel with
+  | O => empty_transition
+  | S f =>
+      let pos := find_from [c_nl] stt prev_pos in
+      let tsym := find_from c_arrow stt prev_pos in
+      let isym := find_from c_initstar stt prev_pos in
+      if (isym <? pos) || (pos <=? tsym)
+      then (if pos =? npos then empty_transition else parse_stt_loop f stt (wadd pos 1) cpt t)
+      else if Nat.eqb cpt t then parse_row (substr stt prev_pos (wsub pos prev_pos))
+      else if pos =? npos then empty_transition else parse_stt_loop f stt (wadd pos 1) (S cpt) t
+  end.
+Definition parse_stt (t:nat) (stt:str) : transition := parse_stt_loop (S (length stt)) stt 0 0%nat t.
